@@ -209,7 +209,25 @@ pub fn oracle_defect(tc: &TypeCorpus, cons: Cons, d: Defect, seed: u64) -> Resul
         }
         Defect::UnknownSignal => {
             let old = cells[0].1;
-            let bad = [(9u8, 'q'), (1, 'c'), (0, 'C'), (1, '\u{0}'), (3, 'C')][rng.below(5) as usize];
+            let bad = if rng.below(2) == 0 {
+                [(9u8, 'q'), (1, 'c'), (0, 'C'), (1, '\u{0}'), (3, 'C')][rng.below(5) as usize]
+            } else {
+                // a near miss of a recognised descriptor: band +-1/+-2, attribute code point +- 2^j or bit j flipped (j = 0..20)
+                let t = table[rng.below(table.len() as u64) as usize];
+                let j = rng.below(21) as u32;
+                let cp = match rng.below(3) {
+                    0 => (t.2 as u32).wrapping_add(1 << j),
+                    1 => (t.2 as u32) ^ (1 << j),
+                    _ => t.2 as u32,
+                };
+                let band = match rng.below(4) {
+                    0 => t.1,
+                    1 => t.1.wrapping_add(1),
+                    2 => t.1.wrapping_sub(1),
+                    _ => t.1.wrapping_add(2),
+                };
+                (band, char::from_u32(cp).unwrap_or('q'))
+            };
             let bad = if cons.pos_of(bad.0, bad.1).is_some() { (200u8, 'C') } else { bad };
             for c in cells.iter_mut() {
                 if c.1 == old {
